@@ -388,7 +388,15 @@ impl FunctionStatement {
     pub fn remove_method(&mut self) {
         if let Some(method_name) = self.name.remove_method() {
             self.name.push_field(method_name);
+            let needs_comma = !self.parameters.is_empty() || self.is_variadic;
             self.parameters.insert(0, TypedIdentifier::new("self"));
+
+            if needs_comma {
+                // keep each original comma between the parameters it separated
+                if let Some(tokens) = &mut self.tokens {
+                    tokens.parameter_commas.insert(0, Token::from_content(","));
+                }
+            }
         }
     }
 
